@@ -4,8 +4,8 @@ C13 -- under any connection fault the client never pairs a reply with the wrong 
 A harness-owned fault-injecting TCP relay (vp/relay.py) sits between cpppo's client (connector.pipeline /
 synchronous / operate / process, get_attribute.proxy.read) and a real TCP simulator.  For each generated
 exchange the fault-free run measures both stream lengths; then EVERY cut offset of the server->client stream,
-EVERY cut offset of the client->server stream, and a sample of "replies lost from offset k on" (blackhole)
-faults is replayed.  Tags hold distinct, position-identifying values, so a mis-paired value is recognisable.
+EVERY cut offset of the client->server stream, a sample of "replies lost from offset k on" (blackhole) faults, and
+the loss of every single reply frame and of every adjacent pair of reply frames (later replies still delivered) is replayed.  Tags hold distinct, position-identifying values, so a mis-paired value is recognisable.
 """
 from __future__ import annotations
 
@@ -65,7 +65,7 @@ def exchanges(draw, maxops=12):
             used.add((tag, e, k))
             ops.append({'kind': 'read', 'tag': tag, 'elem': e, 'count': k})
     return {'ops': ops, 'api': draw(st.sampled_from(APIS)), 'depth': draw(st.sampled_from([1, 3, 8])),
-            'multiple': draw(st.sampled_from([0, 250]))}
+            'multiple': draw(st.sampled_from([0, 120, 250]))}
 
 
 def expected_values(ex):
@@ -224,7 +224,7 @@ def pred_fault(case, stats):
     ex, fault = case['exchange'], case['fault']
     fam = 'proxy' if ex['api'] == 'proxy' else 'pipeline' if ex['api'] == 'pipeline' or (ex['api'] == 'results' and ex['depth'] > 1) else 'synchronous'
     reset_tags(srv)
-    timeout = 0.3 if fault['kind'] == 'blackhole' else 5.0
+    timeout = 0.3 if fault['kind'] in ('blackhole', 'drop') else 5.0
     bounds = case.get('s2c_frame_ends', [])
     inside = fault['dir'] == 's2c' and fault['at'] not in bounds and any(b < fault['at'] for b in bounds[1:]) and fault['at'] < (bounds[-1] if bounds else 0)
     stats.case(case, nontrivial=bool(inside), classes=['%s:%s:%s' % (fam, fault['dir'], fault['kind'])] + (['cut-inside-frame-with-replies-before-and-after'] if inside else []))
@@ -318,10 +318,30 @@ def shard(job):
     return s
 
 
+def last_frame_members(s2c):
+    frames, _ = rc.split_frames(s2c)
+    if len(frames) < 3:
+        return None
+    return results_possible(frames[-1], False)[0]
+
+
 def measure(job):
     ex = job
     s = Stats()
     results, raised, s2c, c2s = fault_free(ex)
+    if ex.get('want_single_final'):
+        # tightly bundled exchange: adjust the operation count until the final packet carries exactly one operation
+        # (the shape in which a lost reply is followed by a delivered single-operation reply)
+        base_ops = list(ex['ops'])
+        pool = base_ops + [dict(o) for o in base_ops]
+        for n in list(range(len(base_ops), 2, -1)) + list(range(len(base_ops) + 1, len(pool) + 1)):
+            trial = dict(ex, ops=pool[:n])
+            r = fault_free(trial)
+            if r[1] is None and last_frame_members(r[2]) == 1:
+                ex = trial
+                results, raised, s2c, c2s = r
+                s.count('exchange:final-packet-holds-one-operation')
+                break
     exp = expected_values(ex)
     ok = raised is None and len(results) == len(exp) and all(same(a, b) for a, b in zip(results, exp))
     frames, left = rc.split_frames(s2c)
@@ -338,14 +358,20 @@ def measure(job):
 
 def run(tier, seed):
     thorough = tier == 'thorough'
-    nex = 24 if thorough else 3
+    nex = 24 if thorough else 6
     exs = draw_exchanges(seed, max(nex * 3, 12), 12 if thorough else 7)
-    # make sure the API families rotate: pipeline / synchronous-family / proxy
+    # rotate API families and bundling so that every run has: unbundled / tightly bundled (2 operations per packet, with
+    # an odd operation count so the final packet holds a single operation) / loosely bundled exchanges of each family
     fams = [['pipeline'], ['synchronous', 'operate0', 'process', 'results'], ['proxy']]
+    mults = [120, 0, 120, 0, 250, 250]
     chosen = []
     for i in range(nex):
         fam = fams[i % 3]
-        chosen.append(dict(exs[i], api=fam[(i // 3) % len(fam)]))
+        ex = dict(exs[i], api=fam[(i // 3) % len(fam)], multiple=mults[i % len(mults)])
+        if ex['multiple'] == 120:
+            ex['depth'] = max(ex['depth'], 3)
+            ex['want_single_final'] = True
+        chosen.append(ex)
     stats = Stats()
     measured = []
     for ex in chosen:
@@ -370,8 +396,15 @@ def run(tier, seed):
             holes = holes[::max(1, len(holes) // 6)][:6]
         for k in holes:
             cases.append(dict(base, fault={'dir': 's2c', 'kind': 'blackhole', 'at': k}))
+        # replies lost entirely while later ones still arrive: every single reply frame, and every adjacent pair
+        starts = [0] + m['ends'][:-1]
+        drops = [(a, b) for a, b in zip(starts, m['ends'])][1:]          # never the Register reply
+        drops += [(a, b2) for (a, b), (a2, b2) in zip(drops, drops[1:])]
+        for a, b in drops:
+            cases.append(dict(base, fault={'dir': 's2c', 'kind': 'drop', 'at': a, 'until': b}))
         stats.exhaustive['exchange %d (%s depth=%d multiple=%d, %d ops)' % (len(stats.exhaustive), ex['api'], ex['depth'], ex['multiple'], len(ex['ops']))] = (
-            'every s2c cut offset 0..%d; c2s cut offsets 0..%d step %d; %d blackhole offsets' % (m['S'], m['C'], cstep, len(holes)))
+            'every s2c cut offset 0..%d; c2s cut offsets 0..%d step %d; %d blackhole offsets; %d whole-reply-frame drops (each frame, each adjacent pair)'
+            % (m['S'], m['C'], cstep, len(holes), len(drops)))
     nsh = 16
     jobs = [('fault', cases[i::nsh]) for i in range(nsh)]
     # proxy fault sequences
